@@ -69,6 +69,8 @@ class FuncInfo:
             self.qual = module.name + "." + node.name
         self.params = [a.arg for a in node.args.args]
         self.is_static = any(isinstance(d, ast.Name) and d.id == "staticmethod" for d in node.decorator_list)
+        self.is_property = any(isinstance(d, ast.Name) and d.id == "property" for d in node.decorator_list)
+        self.is_generator = self._own_yield(node)
         self.defaults = {}
         d = node.args.defaults
         if d:
@@ -77,6 +79,20 @@ class FuncInfo:
         # local names (assigned anywhere in the function body, not nested defs)
         self.locals = set(self.params)
         self._collect_locals(node)
+
+    @staticmethod
+    def _own_yield(fnode):
+        """Does the function itself (not a nested def / lambda / generator expression) contain a yield?"""
+        def visit(n):
+            for ch in ast.iter_child_nodes(n):
+                if isinstance(ch, (ast.FunctionDef, ast.Lambda, ast.ClassDef)):
+                    continue
+                if isinstance(ch, (ast.Yield, ast.YieldFrom)):
+                    return True
+                if visit(ch):
+                    return True
+            return False
+        return visit(fnode)
 
     def _collect_locals(self, fnode):
         def visit(n):
@@ -568,9 +584,9 @@ def closed_world_audit(prog):
         for node in ast.walk(m.tree):
             if isinstance(node, ast.Call) and isinstance(node.func, ast.Name) and node.func.id in REFLECTIVE_CALLS:
                 ok = False
-                if node.func.id == "getattr" and len(node.args) == 3 and isinstance(node.args[0], ast.Name) \
-                        and node.args[0].id == "self" and isinstance(node.args[2], ast.Constant) \
-                        and node.args[2].value is None:
+                if node.func.id in ("getattr", "setattr") and len(node.args) in (2, 3):
+                    # modelled by the walker as a plain attribute read / store; it refuses (analysis error) a name that is not a
+                    # constant on the path at hand
                     ok = True
                 (modelled if ok else offending).append((m.path, node.lineno, ast.unparse(node)))
             elif isinstance(node, ast.Attribute) and node.attr in REFLECTIVE_ATTRS:
@@ -587,7 +603,7 @@ def closed_world_audit(prog):
                         offending.append((m.path, node.lineno, "@" + txt))
             elif isinstance(node, ast.FunctionDef) and node.decorator_list:
                 for d in node.decorator_list:
-                    if isinstance(d, ast.Name) and d.id == "staticmethod":
-                        continue      # modelled: called without binding a receiver
+                    if isinstance(d, ast.Name) and d.id in ("staticmethod", "property"):
+                        continue      # modelled: called without binding a receiver / read-only accessor inlined at the attribute read
                     offending.append((m.path, node.lineno, "@" + ast.unparse(d)))
     return modelled, offending
